@@ -737,9 +737,9 @@ class Exec:
         raise OutOfSubset(meth)
 
     def arrlist_method(self, e, name, meth, st):
-        L = st.env[name]
         if meth == 'append':
-            x = self.ev(e.args[0], st)
+            x = self.ev(e.args[0], st)         # python evaluates the argument first: it may itself pop from this list
+            L = st.env[name]
             items = list(x.items) if isinstance(x, Tup) else [x]
             if len(items) != L.arity:
                 raise OutOfSubset('arity of appended tuple')
@@ -747,6 +747,7 @@ class Exec:
             return NONE
         if e.args:
             raise OutOfSubset('pop(index)')
+        L = st.env[name]
         self.safety(st, 'pop-nonempty', e, L.n > 0)
         items = [Select(a, L.n - 1) for a in L.arrs]
         st.env[name] = ArrList(L.arrs, L.n - 1)
@@ -914,6 +915,22 @@ class Exec:
         self.ev(s.value, st)
         return [('fall', st)]
 
+    def st_Delete(self, s, st):
+        # del stack[k:]  on a positionally held list: truncation (same as stack = stack[:k] when the list is not aliased)
+        for t in s.targets:
+            if isinstance(t, ast.Subscript) and isinstance(t.value, ast.Name) and isinstance(st.env.get(t.value.id), ArrList) \
+                    and isinstance(t.slice, ast.Slice) and t.slice.lower is not None and t.slice.upper is None and t.slice.step is None:
+                name = t.value.id
+                if name in st.frozen:
+                    raise OutOfSubset(f'mutation of list {name} after it was aliased')
+                lo = self.as_int(self.ev(t.slice.lower, st))
+                L = st.env[name]
+                self.safety(st, 'slice-nonneg', s, lo >= 0)
+                st.env[name] = ArrList(L.arrs, If(lo < L.n, lo, L.n))
+            else:
+                raise OutOfSubset('statement Delete')
+        return [('fall', st)]
+
     def st_Pass(self, s, st):
         return [('fall', st)]
 
@@ -977,7 +994,7 @@ class Exec:
             if isinstance(n, ast.Call) and isinstance(n.func, ast.Attribute) and isinstance(n.func.value, ast.Name) \
                     and n.func.attr in ('append', 'pop', 'extend', 'add', 'update', 'clear', 'insert', 'remove'):
                 names.add(n.func.value.id)
-            if isinstance(n, ast.Subscript) and isinstance(n.ctx, ast.Store) and isinstance(n.value, ast.Name):
+            if isinstance(n, ast.Subscript) and isinstance(n.ctx, (ast.Store, ast.Del)) and isinstance(n.value, ast.Name):
                 names.add(n.value.id)
         return names
 
